@@ -509,7 +509,7 @@ fn verify_header(rep: &Report, seed: u64, tier: Tier) {
 
 /// Engine 5: lying servers (CLI over HTTP).
 fn lying_server(rep: &Report, seed: u64, tier: Tier) {
-    let n = tier.pick(60, 600);
+    let n = tier.pick(300, 3000);
     let res = par_map(n, crate::util::ncpu(), |i| {
         let mut rng = Rng::new(seed).fork(0x0440 + i as u64);
         let spec = BaseSpec {
@@ -610,7 +610,7 @@ fn lying_server(rep: &Report, seed: u64, tier: Tier) {
 /// Engine 6: library, in-process, many random corruptions of larger archives.
 fn library(rep: &Report, seed: u64, tier: Tier) {
     let narch = tier.pick(16, 64);
-    let per = tier.pick(400, 3000);
+    let per = tier.pick(1500, 12_000);
     let res = par_map(narch, crate::util::ncpu(), |ai| {
         let mut rng = Rng::new(seed).fork(0x0450 + ai as u64);
         let spec = BaseSpec {
